@@ -10,6 +10,9 @@ import asyncstdlib as A
 from ..loop import CTX, Driver, Suspend, rr_strategy
 from ..sched import explore
 from ..probes import PLANNED, PLANNED_NAMES, Planned
+from ..tools import Opaque
+
+OPAQUE = Opaque("result")  # a result that refuses to be inspected (no truth value, equality, hash)
 
 ID = "C11"
 LEVEL = "exploration"
@@ -25,6 +28,7 @@ RULE = ("2..4 tasks issue 1..3 operations each (call key, cache_clear, cache_dis
         "each with one of its produced values) replayed on an OrderedDict model (existential check). "
         "one evaluation = one executed schedule; distinct = (scenario, schedule trace)")
 RULE += (' Also: planned failures of every standard exception type; None/0/() results for one key; a cancellation thrown into a worker must come out of the cached call (overlapping identical calls).')
+RULE += (' Also: opaque results.')
 ASSUMPTIONS = ["cache contents during concurrency are not pinned, only constrained existentially at quiescence",
                "the OrderedDict LRU model is the one cross-validated against functools.lru_cache by C10"]
 EXHAUSTIVE_SUBSPACES = 'every scenario counted in scenarios_explored_exhaustively had ALL its interleavings executed'
@@ -57,8 +61,17 @@ def cases(tier, seed, shard, nshards):
                "fail": sorted(rng.sample(range(1, 7), rng.choice([0, 0, 1, 2]))),
                "cancel_task": rng.randrange(nt) if rng.random() < 0.4 else None,
                "runs": DFS_LIMIT[tier] if mode == "dfs" else RANDOM_RUNS[tier], "seed": rng.randrange(1 << 30),
-               "exc": rng.choice(PLANNED_NAMES), "falsy_value": rng.choice([None, None, "none", "none", "zero", "empty"]),
+               "exc": rng.choice(PLANNED_NAMES), "falsy_value": rng.choice([None, None, "none", "none", "zero", "empty", "opaque"]),
                "epilogue": [rng.randrange(nkeys + 1) for _ in range(rng.randint(3, 7))]}
+
+
+def _same_value(a, b):
+    """Equality of results, without asking an opaque one (identity is all there is to say about it)."""
+    if a is b:
+        return True
+    if isinstance(a, Opaque) or isinstance(b, Opaque):
+        return False
+    return a == b
 
 
 def _planned(case):
@@ -77,7 +90,7 @@ def execute(case, choose, cancel_at=None):
     def mkval(key, rid):
         # for key 0 the function may return None (or another falsy constant): a result like any other
         if key == 0 and case.get("falsy_value") is not None:
-            return {"none": None, "zero": 0, "empty": ()}[case["falsy_value"]]
+            return {"none": None, "zero": 0, "empty": (), "opaque": OPAQUE}[case["falsy_value"]]
         return ("v", key, rid)
 
     async def wrapped(key):
@@ -167,7 +180,9 @@ def execute(case, choose, cancel_at=None):
                           f"with {'value ' + repr(t.value) if t.exc is None else repr(t.exc)}"))
     for t, key, value in received:
         if key == 0 and case.get("falsy_value") is not None:
-            ok = value == mkval(0, 0) and type(value) is type(mkval(0, 0)) and (0, "ok") in produced.values()
+            want = mkval(0, 0)
+            ok = (value is want or (not isinstance(want, Opaque) and not isinstance(value, Opaque) and value == want
+                                    and type(value) is type(want))) and (0, "ok") in produced.values()
         else:
             ok = isinstance(value, tuple) and len(value) == 3 and value[1] == key and produced.get(value[2]) == (key, "ok")
         if not ok:
@@ -209,7 +224,7 @@ def execute(case, choose, cancel_at=None):
                         if maxsize is not None and len(model) >= maxsize:
                             model.popitem(last=False)
                         model[key] = val
-                    if val != v or inf != (hits, misses, maxsize, len(model)):
+                    if not _same_value(val, v) or inf != (hits, misses, maxsize, len(model)):
                         ok = False
                         break
                 if ok:
